@@ -40,7 +40,7 @@ class TapeImageContentInjector(TapeImageWorker):
     ):
         tape = imageManager.image
         for src in args.sources:
-            dotPos = src.rfind(".")
+            dotPos = src.rfind(".", src.rfind("/") + 1)
             fileName = os.path.basename(src.upper())
             fileExtension = ""
             fileType = 2  # binary
